@@ -9,16 +9,16 @@ CONSTANTS
   IdsIdentifyContent = TRUE
   IncOf <- MCIncOf
   StatusInc = 0
-  LocalNeedsIncarnationMatch = FALSE
+  LocalNeedsIncarnationMatch = TRUE
   KeepHigherIncarnation = FALSE
-  ReuseUnattested = TRUE
+  ReuseUnattested = FALSE
   ReadBackFailOpen = FALSE
   StateEarly = FALSE
-  InitScenarios = {"fresh"}
+  InitScenarios = {"fresh", "haskey"}
   InitDocs <- DocsV1
   MaxReconf = 0
   MaxFaults = 2
-  MaxCrash = 0
+  MaxCrash = 1
   MaxDamage = 1
   MaxNotify = 0
   FsFaults = TRUE
